@@ -8,6 +8,7 @@ import lib
 from lib import esc, unesc
 
 BIN = "c10"
+W = min(lib.NCPU, 8)          # processes per parallel stage
 PROP = "C10"
 
 # ------------------------------------------------------------------------------------------------
@@ -170,7 +171,7 @@ def all_single_redirs():
     fds = [None, 0, 1, 2, 3, 7]
     for n in fds:
         for k in "rwaxc":
-            for p in range(len(PATHS)):
+            for p in (range(len(PATHS)) if n in (None, 1, 2) else (0, 3, 5, 7)):
                 out.append(r_file(n, k, p))
         for inp in (False, True):
             out.append(r_dup(n, inp, None, True))
@@ -290,6 +291,8 @@ def exhaustive_cases():
             for hi, h in enumerate(hosts):
                 if hi == 8 and r[0] == "h" and r[3] == "d":
                     continue
+                if nc and hi in (4, 5, 6, 7):
+                    continue
                 cases.append((nc, h([r]), "exh1"))
     # ordered pairs over a reduced alphabet (left-to-right evaluation)
     small = [r_file(None, "w", 0), r_file(2, "w", 0), r_file(None, "a", 3), r_file(2, "w", 1), r_dup(2, False, ("n", 1), False),
@@ -340,7 +343,7 @@ def heredoc_cases(ctx):
         for tw in ("EOF", "'EOF'", "E\\OF"):
             for a in LINE_ATOMS:
                 cases.append((dash, tw, [a], "plain"))
-            for a, b in itertools.product(LINE_ATOMS[:20], repeat=2):
+            for a, b in itertools.product(LINE_ATOMS[:15], repeat=2):
                 cases.append((dash, tw, [a, b], "plain"))
     for _ in range(ctx.size(700, 12000)):
         dash = rng.random() < 0.4
@@ -430,7 +433,7 @@ def canon_resp(r, model=False):
 
 def run_shell_cases(scripts, which):
     ok, outs, errs = lib.run_vh_parallel(BIN, ["R %s %s" % (which, esc(s)) for s in scripts], args=[lib.BRUSH, lib.BASH],
-                                         workers=min(lib.NCPU, 12))
+                                         workers=W)
     return ok, outs, errs
 
 
@@ -504,7 +507,7 @@ def decide_fd(ctx, cases):
     oko, oouts, eo = run_shell_cases(scripts, "bash")
     if not (okb and oko):
         ctx.broken.append("harness c10 died: " + (eb + eo)[:400])
-    mouts = lib.run_drv_parallel(reqs)
+    mouts = lib.run_drv_parallel(reqs, workers=W)
     nviol = 0
     for (nc, cmds, kind), script, b, o, m in zip(cases, scripts, bouts, oouts, mouts):
         if " | S " not in m:
@@ -576,15 +579,15 @@ def decide_heredoc(ctx, cases):
         texts.append((text, tabs))
         treqs.append("T " + esc("cat %s%s\n%s" % ("<<-" if dash else "<<", tw, text)))
         mreqs.append("C10 H %d %s %s" % (1 if dash else 0, esc(tw), esc(text)))
-    okh, touts, errs = lib.run_vh_parallel(BIN, treqs, args=[lib.BRUSH, lib.BASH])
+    okh, touts, errs = lib.run_vh_parallel(BIN, treqs, args=[lib.BRUSH, lib.BASH], workers=W)
     if not okh:
         ctx.broken.append("harness c10 died (tokenizer): " + errs[:300])
-    mouts = lib.run_drv_parallel(mreqs)
+    mouts = lib.run_drv_parallel(mreqs, workers=W)
     rest_reqs = []
     for m in mouts:
         f = m.split(" ")
         rest_reqs.append("T " + (f[3] if f[0] == "ok" else "%"))
-    _, routs, _ = lib.run_vh_parallel(BIN, rest_reqs, args=[lib.BRUSH, lib.BASH])
+    _, routs, _ = lib.run_vh_parallel(BIN, rest_reqs, args=[lib.BRUSH, lib.BASH], workers=W)
     nviol = 0
     bodies = []
     for (dash, tw, lines, layout), (text, tabs), t, m, rt in zip(cases, texts, touts, mouts, routs):
@@ -640,11 +643,11 @@ def decide_heredoc(ctx, cases):
         meta.append((dash, tw, lines, layout))
         ereqs.append(("C10 E %s %s" % (esc(bd[1]), esc(XVAL))) if bd[0] else None)
         expect.append(bd)
-    eouts = lib.run_drv_parallel([e for e in ereqs if e is not None])
+    eouts = lib.run_drv_parallel([e for e in ereqs if e is not None], workers=W)
     it = iter(eouts)
     contents = [unesc(next(it)) if e is not None else bd[1] for e, bd in zip(ereqs, expect)]
-    okb, bouts, _ = lib.run_vh_parallel(BIN, ["RAW brush " + esc(s) for s in scripts], args=[lib.BRUSH, lib.BASH], workers=min(lib.NCPU, 12))
-    oko, oouts, _ = lib.run_vh_parallel(BIN, ["RAW bash " + esc(s) for s in scripts], args=[lib.BRUSH, lib.BASH], workers=min(lib.NCPU, 12))
+    okb, bouts, _ = lib.run_vh_parallel(BIN, ["RAW brush " + esc(s) for s in scripts], args=[lib.BRUSH, lib.BASH], workers=W)
+    oko, oouts, _ = lib.run_vh_parallel(BIN, ["RAW bash " + esc(s) for s in scripts], args=[lib.BRUSH, lib.BASH], workers=W)
     for (dash, tw, lines, layout), script, content, b, o in zip(meta, scripts, contents, bouts, oouts):
         ctx.count(("E", script), nontrivial=len(lines) >= 1, bucket="heredoc_e2e_" + layout)
         ctx.impl_validated += 1
@@ -679,26 +682,6 @@ def decide_heredoc(ctx, cases):
                 nviol += 1
                 ctx.violation("here-document content differs from bash inside the proved domain", dict(case, brush=bo, bash=oo))
     return scripts
-
-
-def corpus_cases():
-    cdir = os.path.join(lib.ROOT, "corpus", PROP)
-    fd, hd = [], []
-    if os.path.isdir(cdir):
-        for f in sorted(os.listdir(cdir)):
-            if f.endswith(".json"):
-                for rec in json.load(open(os.path.join(cdir, f))):
-                    if "cmds" in rec:
-                        fd.append((rec["nc"], _tup(rec["cmds"]), "corpus"))
-                    elif "lines" in rec:
-                        hd.append((rec["dash"], rec["tag"], rec["lines"], rec.get("layout", "plain")))
-    return fd, hd
-
-
-def _tup(x):
-    if isinstance(x, list):
-        return [_tup(y) for y in x] if (x and isinstance(x[0], list)) else tuple(_tup(y) for y in x)
-    return x
 
 
 def _cmds_from_json(x):
@@ -758,7 +741,7 @@ def run(ctx):
                        "functions (call and definition redirections), brace groups, for/while/if, subshells, exec, nested two levels, "
                        "with and without noclobber); observables: every file of the scratch directory, stdout/stderr files, exit "
                        "statuses, and per probe the readlink/mode of descriptors 0-9 plus markers written through each of them; "
-                       "here-documents: exhaustive single lines and pairs of 39 adversarial line atoms x 3 delimiter forms x <</<<-, "
+                       "here-documents: exhaustive single lines (39 adversarial atoms) and ordered pairs (15 atoms) x 3 delimiter forms x <</<<-, "
                        "seeded random bodies, layouts plain / two per line / inside $( ) / inside a function / no final newline; "
                        "non-trivial = at least one redirection / one body line")
     ctx.assumptions += ["bash 5.2.15 is the oracle; the flat POSIX reference semantics (Spec/FdFlat.lean) is compared with it on every case "
